@@ -367,6 +367,21 @@ def run_sf_history(c):
         calls["g"].append(np.array(x, float).copy())
         return A @ x + np.cos(x)
     lb, ub = np.full(n, -50.0), np.full(n, 50.0)
+    deg = list(c.get("degenerate") or [])
+    if deg:
+        # degenerate sides: lb_i == ub_i == 0.25, every point of the history has that component at 0.25
+        c = dict(c, x0=list(c["x0"]), ops=[dict(o) for o in c["ops"]])
+        for i in deg:
+            lb[i] = ub[i] = 0.25
+            c["x0"][i] = 0.25
+            for o in c["ops"]:
+                if "point" in o:
+                    o["point"] = list(o["point"])
+                    o["point"][i] = 0.25
+                if o["op"] == "mutate":
+                    o["value"] = list(o["value"])
+                    o["value"][i] = 0.25
+    free = [i for i in range(n) if i not in deg]
     mode = c["jac"]
     jac = g if mode == "callable" else (None if mode == "none" else mode)
     sf = prepare_scalar_function(f, np.array(c["x0"], float), jac=jac, bounds=(lb, ub), epsilon=c.get("eps", 1e-8), finite_diff_rel_step=c.get("rel_step"))
@@ -420,7 +435,9 @@ def run_sf_history(c):
                 else:
                     kw["rel_step"] = c.get("rel_step")
                 ref_g = approx_derivative(lambda x: 0.5 * x.dot(A @ x) + np.sin(x).sum(), pt, f0=ref_f, **kw) * scale
-            if not np.array_equal(np.asarray(vg, float), ref_g):
+            if deg and not np.all(np.isfinite(np.asarray(vg, float)[deg])):
+                bad.setdefault("C15.gradient_is_finite_on_degenerate_sides", "step %d (%s): lb == ub == 0.25 in components %s, returned gradient %s" % (step, kind, deg, np.asarray(vg).tolist()))
+            if not np.array_equal(np.asarray(vg, float)[free], ref_g[free]):
                 bad.setdefault("C15.gradient_is_fresh", "step %d (%s): returned %s, fresh gradient times the factor gives %s" % (step, kind, np.asarray(vg).tolist(), ref_g.tolist()))
         if sf.nfev != nfu:
             bad.setdefault("C15.nfev_counts_objective_calls", "step %d: nfev=%d, %d objective calls made" % (step, sf.nfev, nfu))
